@@ -114,6 +114,24 @@ def Vec.set (s : Vec) (h a : Nat) : Vec :=
   if s.mins[p]? = some h then { s with abunds := s.abunds.map (setAt · p a) }
   else s.add h a
 
+/-- `add_many` (and the loop of the C entry point `kmerminhash_add_many`): `add_hash` per element -/
+def Vec.addMany (s : Vec) (hs : List Nat) : Vec := hs.foldl (fun s h => s.add h 1) s
+
+/-- `add_many_with_abund`: `add_hash_with_abundance` per pair -/
+def Vec.addManyAbund (s : Vec) (ps : List (Nat × Nat)) : Vec := ps.foldl (fun s p => s.add p.1 p.2) s
+
+/-- `add_from(other)`: `add_hash` for every hash of `other` (no compatibility check) -/
+def Vec.addFrom (s o : Vec) : Vec := s.addMany o.mins
+
+/-- `remove_from(other)`: `remove_hash` for every hash of `other` (no compatibility check) -/
+def Vec.removeFrom (s o : Vec) : Vec := s.removeMany o.mins
+
+/-- `to_vec_abunds`: the hashes with their abundances, 1 each when untracked -/
+def Vec.toVecAbunds (s : Vec) : List (Nat × Nat) :=
+  match s.abunds with
+  | some a => s.mins.zip a
+  | none => s.mins.map (fun h => (h, 1))
+
 /-- `clear` (resets the cache since b305542) -/
 def Vec.clear (s : Vec) : Vec :=
   ({ s with mins := [], abunds := s.abunds.map (fun _ => []) }).reset
@@ -293,6 +311,21 @@ def Tree.remove (s : Tree) (h : Nat) : Tree :=
   if h == s1.currentMax then { s1 with currentMax := lastOr0 s1.mins } else s1
 
 def Tree.removeMany (s : Tree) (hs : List Nat) : Tree := hs.foldl Tree.remove s
+
+/-- `add_many`: `add_hash` per element -/
+def Tree.addMany (s : Tree) (hs : List Nat) : Tree := hs.foldl (fun s h => s.add h 1) s
+
+/-- `add_many_with_abund`: `add_hash_with_abundance` per pair -/
+def Tree.addManyAbund (s : Tree) (ps : List (Nat × Nat)) : Tree := ps.foldl (fun s p => s.add p.1 p.2) s
+
+/-- `add_from(other)`: `add_hash` for every hash of `other` (no compatibility check) -/
+def Tree.addFrom (s o : Tree) : Tree := s.addMany o.mins
+
+/-- `to_vec_abunds`: the map's entries, or the hashes with 1 each when untracked -/
+def Tree.toVecAbunds (s : Tree) : List (Nat × Nat) :=
+  match s.abunds with
+  | some a => a
+  | none => s.mins.map (fun h => (h, 1))
 
 def Tree.clear (s : Tree) : Tree :=
   ({ s with mins := [], abunds := s.abunds.map (fun _ => []), currentMax := 0 }).reset
